@@ -133,7 +133,8 @@ def run(ck):
         closed_all &= res['closed']
         # guard pass: ordered pairs (first letters: those that set something non-default, quick: one exec letter)
         names = list(L)
-        firsts = [n for n in names if n.endswith('/s')] if ck.tier == 'quick' else names
+        # quick: first letters = every configuration with the short call, plus the long call under the configurations that raise errors / hit limits
+        firsts = [n for n in names if n.endswith('/s') or n.split('/')[0] in ('logmax', 'dsmax', 'errlog', 'all', 'garbage', 'inv_out', 'dup_out')] if ck.tier == 'quick' else names
         pairs = [(a, b) for a in firsts for b in names]
         for pr, r in zip(pairs, pmap(lambda p: ex.run_history(list(p)), pairs)):
             total_trans += 1
@@ -160,12 +161,20 @@ def heap_phase(ck, L):
         # warm-up: every letter once; then two more rounds with accounting
         lines = ['sinks pipe', 'noentry']
         seq = names + names + names
-        for a in seq:
+        for i, a in enumerate(seq):
+            if i == len(names):
+                lines.append('digest afterwarm')
             lines += L[a]
+        lines.append('digest end')
         r = H.run_script(v['h_exec'], os.path.join(ck.workdir, 'heap-' + vname), '\n'.join(lines), env_extra={'VERIF_HEXMAX': '0'}, timeout=300)
         calls = [l for l in r['lines'] if 'call' in l]
         if not r['done']:
             ck.violation('C11:heap_run_abort:%s' % vname, {'rc': r['rc'], 'stderr': r['stderr'][-400:]})
+        dg = {l['digest']: l for l in r['lines'] if 'digest' in l and 'call' not in l}
+        if 'afterwarm' in dg and 'end' in dg:
+            for k in ('fds', 'env', 'cwd', 'umask', 'sigmask', 'sigact'):
+                if dg['afterwarm'].get(k) != dg['end'].get(k):
+                    ck.violation('C11:growth_or_residue_over_sequence:%s:%s' % (vname, k), {'build': vname, 'attribute': k, 'after_warm_up_round': dg['afterwarm'].get(k), 'after_two_more_rounds': dg['end'].get(k)})
         for a, c in list(zip(seq, calls))[len(names):]:
             n += 1
             if c.get('heap_delta_live', 0) != 0:
